@@ -287,32 +287,32 @@ def role(fv, t):
     return "other:" + show(t)
 
 
-def names_rule(ctx, fc, fm):
+def names_rule(ctx, fc, fm, R="C07.F"):
     w, r = temp_formats(fc), temp_formats(fm)
     if len(w) != 1 or len(r) != 1:
-        ctx.fail("C07.F", "temp_name:sites", "expected one temp-file name template in count_chunk and one in merge "
+        ctx.fail(R, "temp_name:sites", "expected one temp-file name template in count_chunk and one in merge "
                  "(found %d / %d)" % (len(w), len(r)), fc.fn["sp"])
         return
     (wn, wf, wt), (rn, rf, rt) = w[0], r[0]
-    ctx.check("C07.F", "temp_name:template", wt == rt, "writer and reader use the template %r" % wt,
+    ctx.check(R, "temp_name:template", wt == rt, "writer and reader use the template %r" % wt,
               "temp-file name template differs: count_chunk writes %r, merge reads %r" % (wt, rt), line_of(rn))
     wr = [role(fc, a).split(":")[0] for a in wf[2]]
     rr = [role(fm, a).split(":")[0] for a in rf[2]]
     wfull = [role(fc, a) for a in wf[2]]
     rfull = [role(fm, a) for a in rf[2]]
-    ctx.check("C07.F", "temp_name:roles", wr == rr and sorted(wr) == ["chunk", "out_dir", "part"],
+    ctx.check(R, "temp_name:roles", wr == rr and sorted(wr) == ["chunk", "out_dir", "part"],
               "argument roles agree: writer %s, reader %s" % (wfull, rfull),
               "the temp-file name arguments play different roles: count_chunk %s vs merge %s — merge would read "
               "other files than the ones written" % (wfull, rfull), line_of(rn))
-    ctx.check("C07.F", "temp_name:writer_chunk", "chunk:self.chunks" in wfull and "part:enumerate-index" in wfull,
+    ctx.check(R, "temp_name:writer_chunk", "chunk:self.chunks" in wfull and "part:enumerate-index" in wfull,
               "writer names files by (partition index, self.chunks)",
               "count_chunk does not name its files by the enumerate index and self.chunks: %s" % wfull, line_of(wn))
-    ctx.check("C07.F", "temp_name:reader_grid", "chunk:0..chunks" in rfull and "part:0..n_parts" in rfull,
+    ctx.check(R, "temp_name:reader_grid", "chunk:0..chunks" in rfull and "part:0..n_parts" in rfull,
               "merge reads the grid [0,n_parts) x [0,chunks)",
               "merge does not iterate exactly 0..self.n_parts x 0..self.chunks: %s" % rfull, line_of(rn))
     # the file created / opened is the formatted name
     cr = fc.calls_to("std::fs::File::create")
-    ctx.check("C07.F", "temp_name:created", len(cr) == 1 and fc.term(cr[0]["args"][0]) == wf,
+    ctx.check(R, "temp_name:created", len(cr) == 1 and fc.term(cr[0]["args"][0]) == wf,
               "File::create(<template>)", "count_chunk creates a different path than the template", line_of(wn))
 
 
